@@ -8,7 +8,7 @@ import sys
 from . import core
 from . import jugrun
 
-LEAVES = ["None", "True", "False", "0", "1", "2", "-1", "2**70", "1.5", "-0.0", "float('inf')", "''", "'a'", "'b'", "'ab'",
+LEAVES = ["None", "True", "False", "0", "1", "2", "-1", "2**70", "1.5", "-0.0", "0.0", "1.0", "2.0", "float('inf')", "''", "'a'", "'b'", "'ab'",
           "b''", "b'a'", "b'\\x00\\xff'", "np.float64(1.5)", "np.int32(7)", "np.bool_(True)", "1+2j", "'hash1'", "'args'",
           "slice(1, 5, 2)", "range(3)", "np.dtype('int32')"]
 HASHABLE_LEAVES = [x for x in LEAVES if x not in ("slice(1, 5, 2)",)]
@@ -144,9 +144,10 @@ def gen_invocation(rng, depth=3):
     return gen_value(rng, depth)
 
 
-def run_workers(specs, seeds, tag):
+def run_workers(specs, seeds, tag, mode='seq'):
     """Runs hashworker once per seed (separate interpreter, PYTHONHASHSEED=seed, variant=seed).
-    Returns list (per seed) of result lists."""
+    mode 'seq': all specs one after the other in that interpreter; mode 'iso': every spec in its own forked child of an
+    interpreter that hashes nothing itself (identifier only).  Returns list (per seed) of result lists."""
     with jugrun.scratch_dir('hashw') as d:
         sp = os.path.join(d, 'specs.json')
         json.dump(specs, open(sp, 'w'))
@@ -157,7 +158,8 @@ def run_workers(specs, seeds, tag):
             env['PYTHONPATH'] = core.VERIF + os.pathsep + core.REPO
             env['PYTHONDONTWRITEBYTECODE'] = '1'
             out = os.path.join(d, 'out%d.json' % s)
-            p = subprocess.Popen([sys.executable, '-m', 'harness.hashworker', sp, out, str(s)], env=env, cwd=core.VERIF,
+            p = subprocess.Popen([sys.executable, '-m', 'harness.hashworker', sp, out, str(s)] + (['iso'] if mode == 'iso' else []),
+                                 env=env, cwd=core.VERIF,
                                  stdout=subprocess.PIPE, stderr=subprocess.PIPE, text=True)
             procs.append((s, out, p))
         results = []
